@@ -156,7 +156,7 @@ def load_model(om, scratch):
     from lib_guesser.omen.input_file_io import load_rules
     _n[0] += 1
     d = os.path.join(scratch, "omen%d" % _n[0])
-    rulesets.write_omen(d, om)
+    rulesets.write_omen(d, om, om.get("encoding", "utf-8"))      # (utf-8 unless the description names another codec)
     g = {}
     ok, so, se = common.quiet_call(load_rules, d, g)
     if not ok:
